@@ -282,6 +282,212 @@ fn edge_regressions(out: &mut Out) {
     }
 }
 
+/// Relationship histories driven through the query engine (`execute_mut`): relationships created
+/// by CREATE / MERGE with properties, updated by SET r.k / SET r += / SET r = / REMOVE r.k,
+/// interleaved with version bumps. After every statement every (relationship, version <=
+/// current+1) read is taken; a read at a version older than the current one must (a) never
+/// change afterwards and (b) equal the state the relationship had at the end of that version
+/// (the harness records the state read at the current version after every statement).
+/// These cases have no node operations: the Coq side sees an empty history.
+#[derive(Clone, Debug)]
+enum ROp {
+    Create(u64, Vec<(u64, u64)>), // CREATE (a)-[:R<i> {props}]->(b)
+    Merge(u64, Vec<(u64, u64)>),  // MERGE (a)-[:R<i> {props}]->(b)
+    SetProp(u64, u64, u64),       // SET r.k = v
+    SetPlus(u64, Vec<(u64, u64)>),
+    SetAll(u64, Vec<(u64, u64)>),
+    Remove(u64, u64),
+    Bump,
+}
+
+fn cy_map(p: &[(u64, u64)]) -> String {
+    format!("{{{}}}", p.iter().map(|(k, v)| format!("k{}: {}", k, v)).collect::<Vec<_>>().join(", "))
+}
+fn cy(o: &ROp) -> Option<String> {
+    Some(match o {
+        ROp::Create(t, p) => format!("MATCH (a:L {{uid: 1}}), (b:L {{uid: 2}}) CREATE (a)-[r:R{} {}]->(b)", t, cy_map(p)),
+        ROp::Merge(t, p) => format!("MATCH (a:L {{uid: 1}}), (b:L {{uid: 2}}) MERGE (a)-[r:R{} {}]->(b)", t, cy_map(p)),
+        ROp::SetProp(t, k, v) => format!("MATCH ()-[r:R{}]->() SET r.k{} = {}", t, k, v),
+        ROp::SetPlus(t, p) => format!("MATCH ()-[r:R{}]->() SET r += {}", t, cy_map(p)),
+        ROp::SetAll(t, p) => format!("MATCH ()-[r:R{}]->() SET r = {}", t, cy_map(p)),
+        ROp::Remove(t, k) => format!("MATCH ()-[r:R{}]->() REMOVE r.k{}", t, k),
+        ROp::Bump => return None,
+    })
+}
+
+type ERead = Option<(u64, Vec<(u64, u64)>)>;
+fn read_rel(s: &GraphStore, id: u64, v: u64) -> ERead {
+    s.get_edge_at_version(EdgeId::new(id), v).map(|e| {
+        let mut ps: Vec<(u64, u64)> = e
+            .properties
+            .iter()
+            .map(|(k, v)| (k[1..].parse().unwrap_or(99), match v { PropertyValue::Integer(i) => *i as u64, _ => 999 }))
+            .collect();
+        ps.sort();
+        (e.version, ps)
+    })
+}
+
+fn run_rel_case(out: &mut Out, engine: &QueryEngine, ops: &[ROp]) {
+    let idx = out.next_index();
+    if !out.wants(idx) {
+        out.skip();
+        return;
+    }
+    let mut s = GraphStore::new();
+    let mut bad: Option<String> = None;
+    if engine.execute_mut("CREATE (a:L {uid: 1}), (b:L {uid: 2})", &mut s, "default").is_err() {
+        bad = Some("setup statement failed".to_string());
+    }
+    const MAXE: u64 = 3;
+    // first observation of a read of the past
+    let mut seen: BTreeMap<(u64, u64), ERead> = BTreeMap::new();
+    // state (properties, None = does not exist) of each relationship at the end of each version
+    let mut state_at: BTreeMap<(u64, u64), Option<Vec<(u64, u64)>>> = BTreeMap::new();
+    let (mut late_create, mut removed, mut updated_late) = (false, false, false);
+    for (i, o) in ops.iter().enumerate() {
+        let cur_before = s.current_version;
+        match cy(o) {
+            Some(q) => {
+                let before: Vec<ERead> = (1..=MAXE).map(|e| read_rel(&s, e, cur_before)).collect();
+                if let Err(e) = engine.execute_mut(&q, &mut s, "default") {
+                    bad.get_or_insert(format!("step {}: `{}` failed: {}", i, q, e));
+                }
+                let after: Vec<ERead> = (1..=MAXE).map(|e| read_rel(&s, e, cur_before)).collect();
+                for e in 0..MAXE as usize {
+                    if before[e].is_none() && after[e].is_some() && cur_before > 1 {
+                        late_create = true;
+                    }
+                    if let (Some(b), Some(a)) = (&before[e], &after[e]) {
+                        if a.1.len() < b.1.len() {
+                            removed = true;
+                        }
+                        if a.1 != b.1 && cur_before > 1 {
+                            updated_late = true;
+                        }
+                    }
+                }
+            }
+            None => {
+                let t = s.begin_transaction(IsolationLevel::SnapshotIsolation);
+                if s.commit_transaction(t).is_err() {
+                    bad.get_or_insert(format!("step {}: version bump failed", i));
+                }
+            }
+        }
+        let cur = s.current_version;
+        for e in 1..=MAXE {
+            // the state now is the state at the end of the current version (so far)
+            state_at.insert((e, cur), read_rel(&s, e, cur).map(|r| r.1));
+            for v in 0..cur {
+                let r = read_rel(&s, e, v);
+                match seen.get(&(e, v)) {
+                    Some(old) if *old != r => {
+                        bad.get_or_insert(format!(
+                            "step {} {:?}: read of relationship {} at version {} was {:?}, is now {:?} (current version {})",
+                            i, o, e, v, old, r, cur
+                        ));
+                    }
+                    Some(_) => {}
+                    None => {
+                        seen.insert((e, v), r.clone());
+                    }
+                }
+                // as-of: the last recorded state at a version <= v (None before the first one)
+                let want = (1..=v).rev().find_map(|w| state_at.get(&(e, w))).cloned().unwrap_or(None);
+                if r.as_ref().map(|x| x.1.clone()) != want {
+                    bad.get_or_insert(format!(
+                        "step {} {:?}: relationship {} read at version {} gives {:?} but its state at the end of that version was {:?} (current version {})",
+                        i, o, e, v, r, want, cur
+                    ));
+                }
+            }
+        }
+    }
+    if late_create {
+        out.count("cypher_rel_created_after_v1");
+    }
+    if removed {
+        out.count("cypher_rel_property_removed");
+    }
+    if updated_late {
+        out.count("cypher_rel_updated_after_v1");
+    }
+    out.count("cypher_rel_history");
+    let human = format!("cypher-rel {:?}", ops);
+    let ci = out.case("[]".to_string(), human.clone(), ops.len() > 1);
+    if let Some(b) = bad {
+        out.fail(ci, &human, &b, None);
+    }
+}
+
+fn rel_cases(out: &mut Out, engine: &QueryEngine, args: &Args) {
+    // exhaustive: relationship 1 created at version 1, then every history of <=L letters
+    let alphabet = vec![
+        ROp::Bump,
+        ROp::SetProp(1, 0, 2),
+        ROp::SetPlus(1, vec![(1, 3)]),
+        ROp::SetAll(1, vec![(1, 4)]),
+        ROp::Remove(1, 0),
+        ROp::Create(2, vec![(0, 5)]),
+        ROp::SetProp(2, 1, 6),
+        ROp::Merge(3, vec![(0, 7)]),
+    ];
+    let maxlen = if args.thorough { 5 } else { 4 };
+    for len in 1..=maxlen {
+        let total = (alphabet.len() as u64).pow(len as u32);
+        for code in 0..total {
+            if len == maxlen && code % 2 != args.seed % 2 {
+                continue;
+            }
+            let mut seq = vec![ROp::Create(1, vec![(0, 1)])];
+            let mut c = code;
+            for _ in 0..len {
+                seq.push(alphabet[(c % alphabet.len() as u64) as usize].clone());
+                c /= alphabet.len() as u64;
+            }
+            run_rel_case(out, engine, &seq);
+        }
+    }
+    let n = if args.thorough { 2000 } else { 300 };
+    for c in 0..n {
+        let mut r = Rng::for_case(args.seed ^ 0xC07E, c);
+        let nops = r.range(4, 24);
+        let mut made = [false; 4];
+        let mut ops = Vec::new();
+        for _ in 0..nops {
+            let t = r.range(1, 3);
+            let props = |r: &mut Rng| -> Vec<(u64, u64)> {
+                let mut p = Vec::new();
+                if r.chance(1, 2) {
+                    p.push((0, r.range(1, 5)));
+                }
+                if r.chance(1, 2) {
+                    p.push((1, r.range(1, 5)));
+                }
+                p
+            };
+            let o = match r.below(12) {
+                0..=2 => ROp::Bump,
+                3 | 4 if !made[t as usize] => {
+                    made[t as usize] = true;
+                    if r.chance(2, 3) {
+                        ROp::Create(t, props(&mut r))
+                    } else {
+                        ROp::Merge(t, props(&mut r))
+                    }
+                }
+                3..=6 => ROp::SetProp(t, r.below(2), r.range(1, 5)),
+                7 => ROp::SetPlus(t, props(&mut r)),
+                8 => ROp::SetAll(t, props(&mut r)),
+                _ => ROp::Remove(t, r.below(2)),
+            };
+            ops.push(o);
+        }
+        run_rel_case(out, engine, &ops);
+    }
+}
+
 fn main() {
     let args = parse_args();
     quiet_panics();
@@ -341,6 +547,7 @@ fn main() {
             .collect();
         run_case(&mut out, &engine, &ops);
     }
+    rel_cases(&mut out, &engine, &args);
     replay_known(&mut out);
     edge_regressions(&mut out);
     out.finish();
